@@ -30,6 +30,12 @@
                                             resolves to the releasing thread (it owns the transfer target) wakes
                                             nobody and changes only the sync entry; every waiter whose edge satisfied
                                             the `claimed_twice` clause of W3 satisfies the `Transferred` clause after
+    w3_retransfer_repoints                  (every reachable state) `transfer` of a re-claimed transferred key to the
+                                            SAME owner key by a thread that is not the owner's thread (the
+                                            `transferred` entry is unchanged — salsa's former "no-op" early return,
+                                            repaired) hands the waiters over: it reports `changed`, `transferred` /
+                                            `transferred_dependents` stay as they are and every remaining dependent of
+                                            the key points at the owner's thread
     c19_depends_on_decides                  depends_on terminates and decides reachability
     c19_cycle_reported, c19_block_only_if_acyclic, c19_claim_enabled   (keys owned by a thread)
   PROVED FOR THE PROTOCOL WITHOUT `transfer` (`basicOps`; no key is ever `Transferred`)
@@ -46,7 +52,14 @@
       pre-451fce7 `release_self` (corpus/DG/kf-stale-edge-prefix.ops), which it flags.  A proof needs an
       invariant tying sync table, `transferred` chains (with stale thread fields), the edge re-pointing
       of `update_transferred_edges` and the client `debug_assert`s of `transfer_lock` together; only the
-      hand-back part is proved (`w3_handback_wakes_waiters`, `w3_handback_own_target_accurate`).
+      hand-back parts are proved (`release_self`: `w3_handback_wakes_waiters`,
+      `w3_handback_own_target_accurate`; `transfer` to the unchanged owner: `w3_retransfer_repoints`).
+      SECOND FINDING IN THIS GAP (repaired): `transfer_lock` returned early when the `transferred` entry was
+      unchanged, also when the transferring thread had re-claimed the key from another thread's owner; waiters
+      that blocked on the key meanwhile kept an edge to the re-claiming thread (`noopHandbackOps`: `checkW3`
+      false after the transfer in the model of the old code; with the repair it is true).  On salsa the stale
+      edge made a later `unblock_transfer_target` wake the wrong thread and `update_transferred_edges` trip
+      "Circular reference between blocked edges" (release builds: the right thread waits for itself forever).
     * w6_no_lost_wakeup (full), delivery part: release of a transfer target delivers the result `r` to the
       dependents of every key transitively transferred to it.  Proved: those keys end with an empty
       dependents list (`w6_no_dependents_without_owner`) and every thread that left a list lost its edge
@@ -63,6 +76,7 @@
 import SalsaVerif.Proofs.SyncDGReach
 import SalsaVerif.Proofs.SyncDGWaiters2
 import SalsaVerif.Proofs.SyncDGHandback
+import SalsaVerif.Proofs.SyncDGRetransfer
 
 namespace SalsaVerif.Props.C19
 open SalsaVerif.Model.SyncDG SalsaVerif.Proofs.SyncDG
@@ -92,6 +106,20 @@ def transferOps : List Op :=
 def handbackOps : List Op :=
   [.claim 0 3 true true, .claim 1 2 true true, .claim 1 1 true true, .transfer 1 1 2,
    .claim 1 3 true true, .claim 0 1 true true, .claim 2 1 true true, .releaseSelf 0 1]
+
+/-- The history of the second W3 finding (corpus/DG/noop-retransfer.ops): t0 owns k3, t2 owns k4, t1 owns k2
+    and k1 and transfers k1 to k2 (same thread), then blocks on k3 (edge t1 → t0); t0 re-claims k1 (its
+    resolved owner t1 waits for t0); t2 blocks on k1 (edge t2 → t0); t0 hands k1 back with
+    `transfer k1 → k2`: the `transferred` entry `(t1, k2)` is unchanged.  Old code: early return, t2 keeps
+    its edge to t0 although k1 resolves to t1 again.  Then t0 transfers k3 to k2 and blocks on t1; t1 meets
+    k4 (a cycle through t2 → t0 → t1) and transfers k2 to k4 (t2): old code wakes t0 (t2 "depends on" it
+    through the stale edge) instead of t2 and the re-pointing of t2's edge at t2 trips the
+    circular-reference `debug_assert` (the step is not enabled).  Repaired code: the first transfer re-points
+    t2 at t1, the second wakes t2. -/
+def noopHandbackOps : List Op :=
+  [.claim 0 3 true true, .claim 1 2 true true, .claim 2 4 true true, .claim 1 1 true true, .transfer 1 1 2,
+   .claim 1 3 true true, .claim 0 1 true true, .claim 2 1 true true, .transfer 0 1 2,
+   .claim 0 2 true true, .transfer 0 3 2, .wake 1, .claim 1 4 true true, .transfer 1 2 4]
 
 /-! ### W2 — waits are never cyclic (full: every `Op`, including transfers) -/
 
@@ -340,6 +368,32 @@ example : ((runC init handbackOps).map fun s =>
       some (none, some .completed, [], some .transferred) := by decide
 example : ((runC init handbackOps).map fun s => ((s.sync 1).map (·.anyoneWaiting), checkW3 s [])) =
       some (some false, true) := by decide
+
+/-- W3, hand-back by `transfer` to the unchanged owner (the repaired "no-op" arm of `transfer_lock`): in every
+    reachable state, if key `q` already has the `transferred` entry `(nt, n)`, `nt` is the thread the new
+    owner `n` resolves to and the transferring thread `c` is another thread (it had re-claimed `q`), then
+    `transfer_lock` reports `changed`, does not touch `transferred` / `transferred_dependents`, and every
+    thread that is still a dependent of `q` afterwards has its edge pointing at `nt`. -/
+theorem w3_retransfer_repoints (ops : List Op) (s s' : State) (hr : run init ops = some s)
+    (q c n nt nt' : Nat) (o : SyncOwner) (kind : TransferKind)
+    (hres : newOwnerThread s q n o = some nt) (hentry : s.transferred q = some (nt, n)) (hcn : c ≠ nt)
+    (h : transferLockCore s q c n o = some (s', kind, nt')) :
+    nt' = nt ∧ kind = .changed ∧ s'.transferred = s.transferred ∧ s'.tdeps = s.tdeps ∧
+    ∀ t, t ∈ s'.qdeps q → s'.edges t = some nt :=
+  transferLockCore_same_owner_repoints (reach_full hr) hres hentry hcn h
+
+-- non-vacuity / regression: before the hand-back t2's edge points at the re-claiming thread t0 …
+example : ((runC init (noopHandbackOps.take 8)).map fun s =>
+      (s.edges 2, s.qdeps 1, (s.sync 1).map (·.claimedTwice), resolvedOwner s 1, checkW3 s [])) =
+      some (some 0, [2], some true, some 1, true) := by decide
+-- … the same-owner transfer by t0 re-points it at the owner's thread t1 (old code: edge stays t0, W3 false) …
+example : ((runC init (noopHandbackOps.take 9)).map fun s =>
+      (s.edges 2, s.qdeps 1, (s.sync 1).map (·.owner), (s.transferred 1).map (·.2), checkW3 s [])) =
+      some (some 1, [2], some .transferred, some 2, true) := by decide
+-- … and the later transfer of k2 to t2's k4 is enabled and wakes t2 (old code: not enabled, `debug_assert`)
+example : ((runC init noopHandbackOps).map fun s =>
+      (s.results 2, s.edges 2, s.edges 0, s.edges 1, checkW3 s [])) =
+      some (some .completed, none, some 2, some 2, true) := by decide
 
 /-- W3, hand-back part, own target (salsa e06010e) — WHY the waiters need not (and must not) be woken
     when the releasing thread owns the transfer target.  Holds in EVERY state: if the transfer chain of
